@@ -1479,6 +1479,7 @@ def run(repo: Repo, R: Report) -> None:
 
     _round3(repo, R, tmpl)
     _round4(repo, R, tmpl)
+    _round5(repo, R, tmpl)
 
 
 def _round3(repo: Repo, R: Report, tmpl) -> None:
@@ -1590,7 +1591,7 @@ def _round3(repo: Repo, R: Report, tmpl) -> None:
                     continue
                 want = expand_accessors(ast.parse(f"cls.{key}()", mode="eval").body, returns)
                 for v, st in entries:
-                    got = expand_accessors(_type_of_entry(v), returns)
+                    got = expand_accessors(type_name_rendering(repo, nodes_mod, f, v)[0], returns)
                     where = f"{cname}._define_metadata" if owner_name == cname else f"{cname}._define_metadata (from {owner_name})"
                     R.check(got == want, r_decl, NODES, where, f"metadata['{key}'] = {norm(v, 80)}",
                             f"generated `{cname}` classes declare {key} `{got}` in their metadata while `{cname}.{key}()` - what the pipeline type check and the node itself use - answers `{want}`: the declared types of the node wrapper do not mirror its contract whenever the two differ (an operation whose output type is not its input type)", getattr(st, "lineno", 0) or dm.lineno)
@@ -1850,3 +1851,371 @@ def _creation_time_metadata(repo: Repo, R: Report, tmpl) -> None:
                 R.violation(r_ct, rel, f"{tname}._define_metadata", norm(stmt_of(n), 110),
                             f"`{norm(n, 80)}` looks a key up in metadata entry '{table}', which `{brel}:{bqn}` computes from the signature of `cls.{member}`; the factory attaches that signature only after the class statement (`{norm(att[member], 80)}`, line {getattr(att[member], 'lineno', 0)}), but `{COMP}:{mq}.{minit.name}` calls get_metadata() while the class is being created, when the entry still reflects `def {member}({next((ast.unparse(mf.args) for a, mf, _b in members if a == member and isinstance(mf, FuncNode)), '...')})`: the lookup raises for every configuration that reaches it, the metaclass swallows the exception and the generated class is never registered - the catalogue reports SVA107 (error) for it",
                             getattr(n, "lineno", 0) or f.lineno)
+
+
+# --------------------------------------------------------------------------- round 5: type-name spelling, registration gate, strict digests
+_NAME_ATTRS = ("__name__", "__qualname__")
+_TYPE_KEYS = ("input_data_type", "output_data_type")
+
+
+class _Subst(ast.NodeTransformer):
+    def __init__(self, env: Dict[str, ast.AST]):
+        self.env = env
+
+    def visit_Name(self, node: ast.Name):
+        if isinstance(node.ctx, ast.Load) and node.id in self.env:
+            return clone(self.env[node.id])
+        return node
+
+
+def _resolve_expr(f: Optional[ast.AST], e: ast.AST, env: Dict[str, ast.AST], _depth: int = 0) -> ast.AST:
+    """*e* with the names of *env* (parameters of an inlined callee) and the single-assignment locals of *f* replaced by
+    what they hold."""
+    if _depth > 6:
+        return e
+    table: Dict[str, ast.AST] = {}
+    for nm in sorted({x.id for x in ast.walk(e) if isinstance(x, ast.Name) and isinstance(x.ctx, ast.Load)}):
+        if nm in env:
+            table[nm] = env[nm]
+        elif f is not None and nm not in _params(f):
+            vals = assigned_value(f, nm)
+            if len(vals) == 1 and not any(isinstance(x, ast.Name) and x.id == nm for x in ast.walk(vals[0])):
+                table[nm] = _resolve_expr(f, vals[0], env, _depth + 1)
+    if not table:
+        return e
+    return _Subst(table).visit(ast.Expression(body=clone(e))).body
+
+
+def _helper_targets(repo: Repo, mod, call: ast.Call) -> List[Tuple[object, ast.AST]]:
+    """Plain functions (no methods, no decorated ones) of the package that *call* denotes."""
+    root = call.func
+    while isinstance(root, ast.Attribute):
+        root = root.value
+    if isinstance(call.func, ast.Attribute) and isinstance(root, ast.Name) and root.id in ("cls", "self"):
+        return []
+    try:
+        targets = list(repo.resolve_call(mod, call))
+    except Exception:  # pragma: no cover - resolution is best effort
+        targets = []
+    if not targets and isinstance(call.func, ast.Name) and isinstance(mod.defs.get(call.func.id), FuncNode):
+        targets = [(mod, mod.defs[call.func.id])]
+    return [(m, t) for m, t in targets if isinstance(t, FuncNode) and not t.decorator_list and "." not in qualname_of(t)]
+
+
+def type_name_rendering(repo: Repo, mod, f: Optional[ast.AST], v: ast.AST, env: Optional[Dict[str, ast.AST]] = None, _depth: int = 0) -> Tuple[ast.AST, Optional[str]]:
+    """(type expression, how its name is rendered) for a metadata entry that names a data type: '__name__' /
+    '__qualname__' (`T.__name__`, `getattr(T, "__name__", ..)`, the first operand of an `or` chain - a class always has
+    both attributes, and they are never empty), 'literal' (the name written out), 'str' (str(T)), None (not decided).
+    Locals and helper functions (also those of other modules) are looked through."""
+    env = env or {}
+    if _depth > 8:
+        return _resolve_expr(f, v, env), None
+
+    def rec(x: ast.AST) -> Tuple[ast.AST, Optional[str]]:
+        return type_name_rendering(repo, mod, f, x, env, _depth + 1)
+
+    if isinstance(v, ast.Attribute) and v.attr in _NAME_ATTRS:
+        return _resolve_expr(f, v.value, env), v.attr
+    if isinstance(v, ast.Call) and isinstance(v.func, ast.Name) and v.func.id == "getattr" and len(v.args) >= 2 and isinstance(v.args[1], ast.Constant) and v.args[1].value in _NAME_ATTRS:
+        return _resolve_expr(f, v.args[0], env), v.args[1].value
+    if isinstance(v, ast.Call) and isinstance(v.func, ast.Name) and v.func.id in ("str", "format") and len(v.args) == 1 and not v.keywords:
+        t, r = rec(v.args[0])
+        return t, (r or "str")
+    if isinstance(v, ast.BoolOp) and isinstance(v.op, ast.Or):
+        t, r = rec(v.values[0])
+        if r in _NAME_ATTRS or r == "literal":
+            return t, r
+        return _resolve_expr(f, v, env), None
+    if isinstance(v, ast.NamedExpr):
+        return rec(v.value)
+    if isinstance(v, ast.IfExp):
+        (t1, r1), (_t2, r2) = rec(v.body), rec(v.orelse)
+        if r1 is None or r2 is None:
+            return _resolve_expr(f, v, env), None
+        return t1, (r1 if r1 == r2 else f"{r1} / {r2}")
+    if isinstance(v, ast.Name):
+        if v.id in env:
+            return type_name_rendering(repo, mod, None, env[v.id], {}, _depth + 1)
+        if f is not None and v.id not in _params(f):
+            vals = assigned_value(f, v.id)
+            if len(vals) == 1:
+                return rec(vals[0])
+        return v, None
+    if isinstance(v, ast.Constant) and isinstance(v.value, str) and v.value.isidentifier():
+        return ast.Name(id=v.value, ctx=ast.Load()), "literal"
+    if isinstance(v, ast.Call) and not any(isinstance(a, ast.Starred) for a in v.args) and not any(k.arg is None for k in v.keywords):
+        targets = _helper_targets(repo, mod, v)
+        if len(targets) == 1:
+            tm, tf = targets[0]
+            nf = normalize(repo, tm, tf, copyprop="all")
+            rets = [n for n in walk_no_nested(nf) if isinstance(n, ast.Return) and n.value is not None]
+            ps = [a.arg for a in list(getattr(nf.args, "posonlyargs", [])) + list(nf.args.args)]
+            if len(rets) == 1 and len(v.args) <= len(ps):
+                env2: Dict[str, ast.AST] = {p: _resolve_expr(f, a, env) for p, a in zip(ps, v.args)}
+                for k in v.keywords:
+                    if k.arg in _params(nf):
+                        env2[k.arg] = _resolve_expr(f, k.value, env)
+                repo.consulted.add(tm.rel)
+                return type_name_rendering(repo, tm, nf, rets[0].value, env2, _depth + 1)
+    return _resolve_expr(f, v, env), None
+
+
+def catalogue_type_name_attrs(repo: Repo) -> Dict[str, Set[Tuple[str, str]]]:
+    """{metadata key: {(name attribute, catalogue check)}}: the attribute through which the catalogue names the type that
+    a processor's `input_data_type()` / `output_data_type()` answers, in each comparison with the metadata entry *key*."""
+    mod = repo.module(EXP)
+    out: Dict[str, Set[Tuple[str, str]]] = {}
+    for qn, fn in sorted(mod.defs.items()):
+        if not isinstance(fn, FuncNode) or "." in qn:
+            continue
+        if not any(isinstance(c, ast.Constant) and c.value in _TYPE_KEYS for c in ast.walk(fn)):
+            continue
+        nf = clone(normalize(repo, mod, fn, copyprop="all"))
+        _attach_parents(nf)
+        for cmp_ in [n for n in walk_no_nested(nf) if isinstance(n, ast.Compare)]:
+            sides = [cmp_.left] + list(cmp_.comparators)
+            keys: List[str] = []
+            others: List[ast.AST] = []
+            for s in sides:
+                k = None
+                if isinstance(s, ast.Call) and isinstance(s.func, ast.Attribute) and s.func.attr == "get" and s.args and isinstance(s.args[0], ast.Constant) and s.args[0].value in _TYPE_KEYS:
+                    k = s.args[0].value
+                elif isinstance(s, ast.Subscript) and isinstance(s.slice, ast.Constant) and s.slice.value in _TYPE_KEYS:
+                    k = s.slice.value
+                if k:
+                    keys.append(k)
+                else:
+                    others.append(s)
+            if not keys or not others:
+                continue
+            for o in others:
+                for x in _flow(nf, o):
+                    attr = None
+                    inner: Optional[ast.AST] = None
+                    if isinstance(x, ast.Attribute) and x.attr in _NAME_ATTRS:
+                        attr, inner = x.attr, x.value
+                    elif isinstance(x, ast.Call) and isinstance(x.func, ast.Name) and x.func.id == "getattr" and len(x.args) >= 2 and isinstance(x.args[1], ast.Constant) and x.args[1].value in _NAME_ATTRS:
+                        attr, inner = x.args[1].value, x.args[0]
+                    if attr and inner is not None and any(isinstance(c, ast.Call) and isinstance(c.func, ast.Attribute) and c.func.attr in _TYPE_KEYS for c in _flow(nf, inner)):
+                        for k in keys:
+                            out.setdefault(k, set()).add((attr, qn))
+    return out
+
+
+def _reads_class_name(test: ast.AST, f: ast.AST, cls_var: Optional[str], name_param: Optional[str]) -> Optional[ast.AST]:
+    """The sub-expression of *test* (or of a local it reads) that is the name of the class being created."""
+    for x in _flow(f, test):
+        if isinstance(x, ast.Name) and isinstance(x.ctx, ast.Load) and name_param and x.id == name_param:
+            return x
+        if isinstance(x, ast.Attribute) and x.attr in _NAME_ATTRS and isinstance(x.value, ast.Name) and x.value.id == cls_var:
+            return x
+        if isinstance(x, ast.Call) and isinstance(x.func, ast.Name) and x.func.id == "getattr" and len(x.args) >= 2 and isinstance(x.args[0], ast.Name) and x.args[0].id == cls_var and isinstance(x.args[1], ast.Constant) and x.args[1].value in _NAME_ATTRS:
+            return x
+    return None
+
+
+def registration_sites(f: ast.AST, cls_var: str) -> List[ast.stmt]:
+    """Statements of the metaclass hook *f* that put the class being created into a container (`<reg>.add(cls)`,
+    `.append(cls)`, `<reg>[k] = cls`)."""
+    out: List[ast.stmt] = []
+    for n in walk_no_nested(f):
+        if isinstance(n, ast.Call) and isinstance(n.func, ast.Attribute) and n.func.attr in ("add", "append", "insert", "appendleft", "setdefault") and any(isinstance(a, ast.Name) and a.id == cls_var for a in n.args):
+            st = stmt_of(n)
+            if st not in out:
+                out.append(st)  # type: ignore[arg-type]
+        elif isinstance(n, ast.Assign) and isinstance(n.value, ast.Name) and n.value.id == cls_var and any(isinstance(t, ast.Subscript) for t in n.targets):
+            out.append(n)
+    return out
+
+
+_CATCH_VALUE_ERROR = ("ValueError", "Exception", "BaseException")
+
+
+def _allow_nan_off(call: ast.Call, fn: ast.AST, mod) -> bool:
+    v = kwarg(call, "allow_nan")
+    seen = 0
+    while isinstance(v, ast.Name) and seen < 4:
+        seen += 1
+        vals = assigned_value(fn, v.id) or [st.value for st in mod.tree.body if isinstance(st, ast.Assign) and any(isinstance(t, ast.Name) and t.id == v.id for t in st.targets)]
+        v = vals[0] if len(vals) == 1 else None
+    return isinstance(v, ast.Constant) and not v.value
+
+
+def strict_json_calls(fn: ast.AST, mod) -> List[ast.Call]:
+    """JSON encodings in *fn* that reject the floats inf / nan (`allow_nan=False`): json.dumps / json.dump / JSONEncoder."""
+    out = []
+    for c in calls_in(fn):
+        nm = (call_name(c) or "").split(".")[-1]
+        if nm in ("dumps", "dump", "JSONEncoder") and _allow_nan_off(c, fn, mod):
+            full = call_name(c) or ""
+            if "." not in full:
+                target = mod.imports.get(full, "")
+                if not target.startswith(("json", "simplejson", "orjson")):
+                    continue
+            out.append(c)
+    return out
+
+
+def _value_error_caught(node: ast.AST, fn: ast.AST) -> bool:
+    """A handler (or `contextlib.suppress`) of *fn* around *node* catches ValueError."""
+    child: ast.AST = node
+    for a in ancestors(node):
+        if isinstance(a, ast.Try) and any(x is child for x in a.body):
+            for h in a.handlers:
+                kinds = [dotted_name(x) or "?" for x in (h.type.elts if isinstance(h.type, ast.Tuple) else [h.type])] if h.type is not None else ["BaseException"]
+                if any(k.split(".")[-1] in _CATCH_VALUE_ERROR for k in kinds):
+                    return True
+        if isinstance(a, (ast.With, ast.AsyncWith)) and any(x is child for x in a.body):
+            for it in a.items:
+                ce = it.context_expr
+                if isinstance(ce, ast.Call) and (call_name(ce) or "").split(".")[-1] == "suppress" and any((dotted_name(x) or "").split(".")[-1] in _CATCH_VALUE_ERROR for x in ce.args):
+                    return True
+        if a is fn:
+            break
+        child = a
+    return False
+
+
+def strict_json_escapes(repo: Repo, mod, fn: ast.AST, _memo: Optional[Dict[int, list]] = None, _stack: Optional[Set[int]] = None, _depth: int = 0) -> List[Tuple[List[str], object, ast.Call, ast.AST]]:
+    """(call chain, module, strict encoding call, function that holds it) for every strict JSON encoding in the call
+    closure of *fn* whose ValueError no handler on the way up to *fn* catches."""
+    _memo = _memo if _memo is not None else {}
+    _stack = _stack if _stack is not None else set()
+    if id(fn) in _memo:
+        return _memo[id(fn)]
+    if id(fn) in _stack or _depth > 7:
+        return []
+    _stack.add(id(fn))
+    out: List[Tuple[List[str], object, ast.Call, ast.AST]] = []
+    here = f"{mod.rel}:{qualname_of(fn)}"
+    for c in strict_json_calls(fn, mod):
+        if not _value_error_caught(c, fn):
+            out.append(([here], mod, c, fn))
+    for c in calls_in(fn):
+        try:
+            targets = repo.resolve_call(mod, c)
+        except Exception:  # pragma: no cover
+            targets = []
+        for tm, tn in targets:
+            if not isinstance(tn, FuncNode) or tn is fn:
+                continue
+            sub = strict_json_escapes(repo, tm, tn, _memo, _stack, _depth + 1)
+            if sub and not _value_error_caught(c, fn):
+                for chain, m2, c2, f2 in sub:
+                    if all(c2 is not o[2] for o in out):
+                        out.append(([here] + chain, m2, c2, f2))
+    _stack.discard(id(fn))
+    _memo[id(fn)] = out
+    return out
+
+
+def _round5(repo: Repo, R: Report, tmpl) -> None:
+    nodes_mod = repo.module(NODES)
+
+    # ------------------------------------------------------------------ both sides spell a type's name the same way
+    r_sp = R.rule("C16-D2-type-names-spelled-as-catalogue", "the `input_data_type` / `output_data_type` entries of every node class's metadata name the type through the same attribute (`__name__`) that the catalogue uses when it compares the entry with the wrapped processor's accessor (SVA301 / SVA311 / SVA321) - and that the processors' own metadata use: for a data type defined inside a class or function `__qualname__` differs from `__name__`", 8)
+    cat = catalogue_type_name_attrs(repo)
+    n_cmp = sum(len(v) for v in cat.values())
+    if n_cmp < 3:
+        raise AnalysisError(f"contract catalogue: {n_cmp} comparisons of a metadata data-type entry with `<processor>.<x>_data_type().__name__` found (5 confirmed by reading: SVA301, SVA311 x2, SVA321 x2)")
+    all_attrs = {a for v in cat.values() for a, _q in v}
+    R.extra["catalogue_type_name_attribute"] = sorted(all_attrs)
+    for qn, c in sorted(nodes_mod.defs.items()):
+        if not (isinstance(c, ast.ClassDef) and "." not in qn and any(isinstance(st, FuncNode) and st.name == "_define_metadata" for st in c.body)):
+            continue
+        f = node_method(repo, f"{qn}._define_metadata")
+        for key in _TYPE_KEYS:
+            for v, st in metadata_entries(f, key):
+                _t, how = type_name_rendering(repo, nodes_mod, f, v)
+                if how is None:
+                    R.note(f"{NODES}:{qn}._define_metadata: how metadata['{key}'] = {norm(v, 80)} names the type is not decided")
+                    continue
+                want = {a for a, _q in cat.get(key, set())} or all_attrs
+                by = sorted({q for a, q in cat.get(key, set())} or {q for v2 in cat.values() for _a, q in v2})
+                ok = how == "literal" or (len(want) == 1 and how in want)
+                R.check(ok, r_sp, NODES, f"{qn}._define_metadata", f"metadata['{key}'] = {norm(v, 80)}",
+                        f"generated `{qn}` classes name their declared {key} through `{how}`, while the catalogue (`{EXP}`: {', '.join(by)}) compares the entry with `<processor>.{key}().{'/'.join(sorted(want))}` and the processors' own metadata use that spelling too: for a data type declared inside a class or a function the two differ (`Spectra.Frame` vs `Frame`), the generated node class gets an error-level SVA301/SVA311/SVA321 and its declared types no longer mirror the wrapped processor's", getattr(st, "lineno", 0) or getattr(v, "lineno", 0))
+
+    # ------------------------------------------------------------------ registration is not gated by the class's name
+    r_gate = R.rule("C16-D3-registration-not-gated-by-class-name", "the metaclass hook that fills the component registry reaches its registering statement whatever the name of the class being created: names of generated classes are derived from the (arbitrary) name of the wrapped user class, and the catalogue's registry-coherence rule (SVA107) demands every linted class in the registry without looking at its name", 1)
+    from ..cfg import CFG
+
+    hooks: List[Tuple[object, str, ast.AST]] = []
+    for m, q, c in repo.all_classes():
+        if m.rel.startswith(("semantiva/examples/", "tests/")) or not any((dotted_name(b) or "").split(".")[-1] in ("type", "ABCMeta") for b in c.bases):
+            continue
+        for st in c.body:
+            if isinstance(st, FuncNode) and st.name in ("__init__", "__new__", "__init_subclass__"):
+                hooks.append((m, f"{q}.{st.name}", st))
+    # the catalogue side: does the coherence rule itself look at the class name?
+    coh = [(q, fn) for q, fn in repo.module(EXP).defs.items() if isinstance(fn, FuncNode) and "." not in q and any(isinstance(x, ast.Call) and (call_name(x) or "").split(".")[-1] == "get_component_registry" for x in ast.walk(fn)) and any(isinstance(x, ast.Call) and call_name(x) == "_diag" for x in ast.walk(fn))]
+    coh_reads_name = any(_reads_class_name(i.test, fn2, _first_param(fn2), None) is not None for _q2, fn2 in coh for i in ast.walk(fn2) if isinstance(i, ast.If))
+    n_hooks = 0
+    for m, q, src in hooks:
+        nf = clone(normalize(repo, m, src, copyprop="all"))
+        _attach_parents(nf)
+        ps = _explicit_params(nf)
+        if not ps:
+            continue
+        if src.name == "__new__":
+            made = [t.id for st in walk_no_nested(nf) if isinstance(st, ast.Assign) and isinstance(st.value, ast.Call) and call_attr(st.value) == "__new__" for t in st.targets if isinstance(t, ast.Name)]
+            cls_var = made[0] if made else None
+        else:
+            cls_var = ps[0]
+        name_param = ps[1] if len(ps) > 1 and src.name != "__init_subclass__" else None
+        if cls_var is None:
+            continue
+        regs = registration_sites(nf, cls_var)
+        if not regs:
+            continue
+        n_hooks += 1
+        repo.consulted.add(m.rel)
+        g = CFG(nf)
+        reg_nodes = [n for st in regs for n in g.nodes_for(st)]
+        if not reg_nodes:
+            raise AnalysisError(f"{m.rel}:{q}: registering statement `{norm(regs[0], 80)}` has no CFG node")
+        bad = 0
+        for n in g.nodes:
+            if n.kind != "if" or n.part is None and not isinstance(n.ast, ast.If):
+                continue
+            test = n.part if n.part is not None else n.ast.test  # type: ignore[union-attr]
+            rd = _reads_class_name(test, nf, cls_var, name_param)
+            if rd is None:
+                continue
+            for lab in ("T", "F"):
+                if any(g.dominated_by_edge(t, n.id, lab) for t in reg_nodes):
+                    if coh_reads_name:
+                        raise AnalysisError(f"{m.rel}:{q} registers a class only when `{norm(test, 100)}` is {'true' if lab == 'T' else 'false'}, and the registry-coherence rule of the catalogue ({', '.join(q2 for q2, _f in coh)}) tests the class name too: whether the two name conditions agree is not decided")
+                    bad += 1
+                    R.violation(r_gate, m.rel, q, f"if {norm(test, 100)}",
+                                f"`{norm(regs[0], 90)}` is reached only when `{norm(test, 100)}` is {'true' if lab == 'T' else 'false'}, and that test reads the name of the class being created (`{norm(rd, 40)}`): the factories name generated classes after the wrapped user class (node classes `<Processor>_<NodeBase>`, IO adapters after the IO class, sweep wrappers `<Element>ParametricSweep`), so for some valid configurations the generated node / processor class is never registered, while `{EXP}`{(':' + coh[0][0]) if coh else ''} (SVA107, error) requires every linted class to be in the registry under its component_type without looking at its name",
+                                getattr(test, "lineno", 0) or src.lineno)
+                    break
+        if not bad:
+            R.ok(r_gate, m.rel, q, f"{norm(regs[0], 80)} - no name-dependent guard")
+    if not n_hooks:
+        raise AnalysisError("no metaclass hook that registers the class being created found (anchor of C16-D3-registration-not-gated-by-class-name vanished)")
+
+    # ------------------------------------------------------------------ metadata builders survive every YAML float
+    r_dig = R.rule("C16-D2-metadata-encodes-every-configured-value", "no JSON encoding that rejects inf / nan (`allow_nan=False` raises ValueError) is reached from the `_define_metadata` of a generated class or of a node class without a handler for ValueError on the way: sweep values come from the configuration, `.inf` / `.nan` are valid YAML floats, and an exception that leaves `_define_metadata` costs the generated class its metadata (SVA100) and its registration (SVA107)", 8)
+    roots: List[Tuple[object, str, ast.AST]] = []
+    for rel, tname, attrs, bases, site in tmpl:
+        for attr, f, _b in member_functions(repo, rel, attrs, site):
+            if attr == "_define_metadata" and isinstance(f, FuncNode):
+                roots.append((repo.module(rel), f"{tname}._define_metadata", f))
+    for qn, c in sorted(nodes_mod.defs.items()):
+        if isinstance(c, ast.ClassDef) and "." not in qn:
+            for st in c.body:
+                if isinstance(st, FuncNode) and st.name == "_define_metadata":
+                    roots.append((nodes_mod, f"{qn}._define_metadata", st))
+    memo: Dict[int, list] = {}
+    for m, where, f in roots:
+        esc = strict_json_escapes(repo, m, f, memo)
+        if not esc:
+            R.ok(r_dig, m.rel, where, "no uncaught strict JSON encoding in the call closure")
+            continue
+        for chain, m2, c2, f2 in esc:
+            repo.consulted.add(m2.rel)
+            R.violation(r_dig, m2.rel, qualname_of(f2), norm(stmt_of(c2), 110),
+                        f"`{norm(c2, 90)}` raises ValueError for a float inf / nan, and no handler between it and `{m.rel}:{where}` catches ValueError (call chain: {' -> '.join(chain)}): a sweep whose value sequence holds `.inf` / `.nan` (valid YAML floats, an open-ended threshold) makes get_metadata() of the generated class raise - SVA100 (error); the metaclass swallows the same exception while the class is created, so the class is never registered (SVA107), and an IO adapter built over it fails the same way",
+                        getattr(c2, "lineno", 0))
